@@ -6,7 +6,7 @@
    Not covered by a theorem: Go-level panics inside the nodify callbacks (type assertions on
    node positions); the model gives every callback the node shapes the grammar produces.
    Their absence is validated by the correspondence runs only. *)
-From QV Require Import Sig Peg SigParse SigParseProofs Idl IdlProofs.
+From QV Require Import Sig Peg SigParse SigParseProofs SigParseMerged Idl IdlProofs.
 From Coq Require Import NArith.
 Local Open Scope string_scope.
 
@@ -93,9 +93,55 @@ Theorem C09_steps_exponential : forall n, (2 ^ N.of_nat n <= parse_steps (nest n
 Proof. exact nest_steps_exponential. Qed.
 Print Assumptions C09_steps_exponential.
 
+(* ---- the repaired grammar (design/C07.grammar.fix.diff; model decl_m / parse_m: the prefix
+   "(" list ")" once, then the optional struct definition).  The correspondence run compares the
+   implementation with parse_m when the source has this grammar (TieC09.tie_grammar_switch). ---- *)
+(* the two grammars agree on every input and for every recursion bound: same node and rest, same
+   failure (the model's own outcomes NoFuel / Hang included) *)
+Theorem C09_merged_grammar_same : forall f s, fst (decl_m f s) = fst (decl f s).
+Proof. exact decl_m_decl. Qed.
+Print Assumptions C09_merged_grammar_same.
+(* hence the repaired Parse returns what the pinned Parse returns, for every string *)
+Theorem C09_merged_same : forall s, parse_m s = parse s.
+Proof. exact parse_m_parse. Qed.
+Print Assumptions C09_merged_same.
+(* and every theorem above holds for it *)
+Theorem C09_merged_print_parse : forall t, wf_ty t = true -> parse_m (print t) = POk t.
+Proof. exact parse_m_print. Qed.
+Print Assumptions C09_merged_print_parse.
+Theorem C09_merged_fixed_point : forall s t, parse_m s = POk t -> parse_m (print t) = POk t.
+Proof. exact parse_m_fixed_point. Qed.
+Print Assumptions C09_merged_fixed_point.
+Theorem C09_merged_accepts_grammar_only : forall s t, parse_m s = POk t -> wf_ty t = true.
+Proof. exact parse_m_wf. Qed.
+Print Assumptions C09_merged_accepts_grammar_only.
+Theorem C09_merged_accepts_only_printed_signatures : forall s t, parse_m s = POk t -> unspace s = print t.
+Proof. exact parse_m_canonical. Qed.
+Print Assumptions C09_merged_accepts_only_printed_signatures.
+Theorem C09_merged_total : forall s, parse_m s <> PFuel.
+Proof. exact parse_m_total. Qed.
+Print Assumptions C09_merged_total.
+Theorem C09_merged_reject_is_error : forall s, (exists t, parse_m s = POk t) \/ parse_m s = PErr.
+Proof. exact parse_m_outcomes. Qed.
+Print Assumptions C09_merged_reject_is_error.
+(* whichever grammar is observed, the model the implementation is compared with is parse *)
+Theorem C09_observed_grammar_same : forall merged s, parse_g merged s = parse s.
+Proof. exact parse_g_parse. Qed.
+Print Assumptions C09_observed_grammar_same.
+(* what the repair is for (C07): a number of parser invocations linear in the input *)
+Theorem C09_merged_steps_linear : forall s, (parse_steps_m s <= 30 * N.of_nat (String.length s) + 24)%N.
+Proof. exact parse_steps_m_linear. Qed.
+Print Assumptions C09_merged_steps_linear.
+
 Example C09_nonvacuous :
   wf_ty (TMap (TS SStr) (TStruct "A<B>" [("x", TList (TS SI32)); ("y", TTuple [])])) = true /\
   parse "{s([i]())<A<B>,x,y>}" = POk (TMap (TS SStr) (TStruct "A<B>" [("x", TList (TS SI32)); ("y", TTuple [])])) /\
   parse " { s ( [ i ] ( ) ) < A<B> , x , y > }" = parse "{s([i]())<A<B>,x,y>}" /\
   parse "{s([i]())<A<B>,x,y>} " = PErr /\ parse "(i)<A>" = PErr.
+Proof. vm_compute. repeat split. Qed.
+Example C09_nonvacuous_merged :
+  parse_m "{s([i]())<A<B>,x,y>}" = POk (TMap (TS SStr) (TStruct "A<B>" [("x", TList (TS SI32)); ("y", TTuple [])])) /\
+  parse_m "((i)(s)<A,b>)" = POk (TTuple [TTuple [TS SI32]; TStruct "A" [("b", TS SStr)]]) /\
+  parse_m "(i)<A>" = PErr /\ parse_m "(i)<A,a" = PErr /\ parse_m "()<A,a" = PErr /\
+  (parse_steps_m (nest 10) = 530 /\ parse_steps (nest 10) = 84909)%N.
 Proof. vm_compute. repeat split. Qed.
